@@ -40,3 +40,56 @@ Lemma ops_upd_actor s a f : s_ops (upd_actor a f s) = s_ops s.
 Proof. reflexivity. Qed.
 Lemma ops_emit s e : s_ops (emit e s) = s_ops s.
 Proof. reflexivity. Qed.
+
+(* ---------- get_op under the primitive updates ---------- *)
+Lemma find_map_id (f : op -> op) (l : list op) (o : oid) :
+  (forall p, o_id (f p) = o_id p) ->
+  find (fun p => o_id p =? o) (map f l) = option_map f (find (fun p => o_id p =? o) l).
+Proof.
+  intros Hf. induction l as [|p l IH]; cbn; [reflexivity|].
+  rewrite Hf. destruct (o_id p =? o); [reflexivity|exact IH].
+Qed.
+
+Lemma get_op_upd_op s o f o' :
+  (forall p, o_id (f p) = o_id p) ->
+  get_op (upd_op o f s) o' = if o' =? o then option_map f (get_op s o') else get_op s o'.
+Proof.
+  intros Hf. unfold get_op, upd_op. cbn [s_ops set_s_ops].
+  induction (s_ops s) as [|p l IH]; cbn.
+  - destruct (o' =? o); reflexivity.
+  - destruct (o_id p =? o) eqn:E1.
+    + rewrite Hf. destruct (o_id p =? o') eqn:E2.
+      * apply Nat.eqb_eq in E1, E2. assert (o' =? o = true) as -> by (apply Nat.eqb_eq; congruence). reflexivity.
+      * exact IH.
+    + destruct (o_id p =? o') eqn:E2.
+      * apply Nat.eqb_eq in E2. apply Nat.eqb_neq in E1.
+        assert (o' =? o = false) as -> by (apply Nat.eqb_neq; congruence). reflexivity.
+      * exact IH.
+Qed.
+
+Lemma get_op_id s o p : get_op s o = Some p -> o_id p = o.
+Proof. unfold get_op. intros H. apply find_some in H. destruct H as [_ H]. apply Nat.eqb_eq in H. exact H. Qed.
+
+Lemma get_op_upd_actor s a f o : get_op (upd_actor a f s) o = get_op s o.
+Proof. reflexivity. Qed.
+Lemma get_op_emit s e o : get_op (emit e s) o = get_op s o.
+Proof. reflexivity. Qed.
+
+Lemma get_op_app s p o :
+  get_op (set_s_ops (s_ops s ++ [p]) s) o =
+  match get_op s o with Some q => Some q | None => if o_id p =? o then Some p else None end.
+Proof.
+  unfold get_op. cbn [s_ops set_s_ops]. induction (s_ops s) as [|q l IH]; cbn.
+  - reflexivity.
+  - destruct (o_id q =? o); [reflexivity|exact IH].
+Qed.
+
+Lemma get_op_close_slots s os o :
+  get_op (close_slots os s) o =
+  option_map (fun p => if existsb (Nat.eqb (o_id p)) os
+                       then match o_slot p with SlEmpty => set_o_slot SlClosed p | _ => p end else p)
+             (get_op s o).
+Proof.
+  unfold get_op, close_slots. cbn [s_ops set_s_ops]. apply find_map_id.
+  intros p. destruct (existsb (Nat.eqb (o_id p)) os); [destruct (o_slot p)|]; reflexivity.
+Qed.
